@@ -77,6 +77,7 @@ func ruleIdent1(c *Ctx) {
 			c.R.OK(r.sp+"."+r.fn, "time identity agrees with equality", p, "rendering is derived from what equality compares")
 		}
 	}
+	c.rendersEverything()
 }
 
 // SETORD-1: union / intersect / diff keep the first operand's order (then, for union, the second's).
@@ -1008,6 +1009,53 @@ func ruleIdent2(c *Ctx) {
 				}
 			}
 			c.R.Check(okNum, r.sp+"."+r.fn, "num rendered through util.FmtInt / util.FmtFloat", p, "the two injective formatters", "numbers are rendered/keyed by something other than util.FmtInt / util.FmtFloat")
+			// .. applied to the number itself: the argument is a path into the value (casts, field selections, Int() / int64 of
+			// such a path), never a computed number (rounded, snapped to a grid, scaled): f(g(x)) is injective only if g is
+			if fd := c.FuncDecl(r.sp, r.fn); fd != nil && okNum {
+				defs := c.localDefs(fd.Body)
+				var isPath func(e ast.Expr, d int) bool
+				isPath = func(e ast.Expr, d int) bool {
+					if d > 8 {
+						return false
+					}
+					switch x := unparen(e).(type) {
+					case *ast.Ident:
+						if def, ok := defs[c.objOf(x)]; ok {
+							return isPath(def, d+1)
+						}
+						return true
+					case *ast.SelectorExpr:
+						return isPath(x.X, d+1)
+					case *ast.StarExpr:
+						return isPath(x.X, d+1)
+					case *ast.CallExpr:
+						if tv, ok := c.infoAt(x).Types[x.Fun]; ok && tv.IsType() && len(x.Args) == 1 {
+							return isPath(x.Args[0], d+1)
+						}
+						if se, ok := x.Fun.(*ast.SelectorExpr); ok && len(x.Args) == 0 && (castAccessors[se.Sel.Name] || c.calleeName(x) == "val.NumVal.Int") {
+							return isPath(se.X, d+1)
+						}
+					}
+					return false
+				}
+				var sw *ast.SwitchStmt
+				inspectNoLit(fd.Body, func(x ast.Node) bool {
+					if s2, ok := x.(*ast.SwitchStmt); ok && sw == nil && s2.Tag != nil && strings.HasSuffix(src(s2.Tag), "Kind") {
+						sw = s2
+					}
+					return true
+				})
+				if sw != nil {
+					if cc := c.switchCasesByConst(sw)["types.KNum"]; cc != nil {
+						for _, call := range c.callsTo(&ast.BlockStmt{List: cc.Body}, "util.FmtFloat", "util.FmtInt") {
+							if len(call.Args) != 1 {
+								continue
+							}
+							c.R.Check(isPath(call.Args[0], 0), r.sp+"."+r.fn, c.calleeName(call)+" applied to the number itself", call.Pos(), "a path into the value", "the formatter is applied to "+src(call.Args[0])+", a number computed from the value: distinct numbers that this computation maps together get one text / one map key, although == and the other renderers tell them apart")
+						}
+					}
+				}
+			}
 		}
 	}
 }
@@ -1029,4 +1077,89 @@ func enclosingVarName(f *ast.File, lit ast.Node) string {
 		}
 	}
 	return "?"
+}
+
+
+// rendersEverything (clause of IDENT-1): the canonical rendering is also the identity by which union / intersect / diff
+// recognise an element (valSetOf keys by String()), and the text string() returns. It can only be injective on composite
+// values if it renders *every* element: in the list, map and object arms of the renderers every loop that renders
+// elements ranges over the whole payload (no sub-slice with an upper bound, no loop that starts late or stops early) and
+// its body has no break / continue / return. A display limit ("... N more") makes long values that agree on a prefix equal.
+func (c *Ctx) rendersEverything() {
+	for _, r := range []struct{ sp, fn string }{{"val", "stringify"}, {"fun", "stringify0"}} {
+		fd := c.FuncDecl(r.sp, r.fn)
+		name := r.sp + "." + r.fn
+		if fd == nil {
+			continue // anchored by the other clauses
+		}
+		name = fnName(r.sp, fd)
+		self := c.calleeObjOfDecl(fd)
+		defs := c.localDefs(fd.Body)
+		loops := c.absLoops(fd.Body, defs)
+		n := 0
+		inspectNoLit(fd.Body, func(x ast.Node) bool {
+			var body *ast.BlockStmt
+			switch l := x.(type) {
+			case *ast.RangeStmt:
+				body = l.Body
+			case *ast.ForStmt:
+				body = l.Body
+			default:
+				return true
+			}
+			rec := false
+			for _, call := range c.calls(body) {
+				if c.calleeObj(call) == self {
+					rec = true
+				}
+			}
+			if !rec {
+				return true
+			}
+			n++
+			ok, why := false, "a loop the checker cannot read as a walk over one sequence"
+			for i := range loops {
+				l := &loops[i]
+				if l.stmt != x.(ast.Stmt) {
+					continue
+				}
+				ok, why = true, ""
+				if l.seq == nil {
+					ok, why = false, "the loop bound is not the length of the payload"
+					break
+				}
+				if l.start != nil {
+					ok, why = false, "the loop does not start at the first element"
+				}
+				if se, isSl := unparen(l.seq).(*ast.SliceExpr); isSl && (se.High != nil || se.Low != nil) {
+					ok, why = false, "the loop ranges over a sub-slice "+src(l.seq)+" of the payload"
+				}
+			}
+			ast.Inspect(body, func(y ast.Node) bool {
+				switch b := y.(type) {
+				case *ast.FuncLit:
+					return false
+				case *ast.BranchStmt:
+					if b.Tok == token.BREAK || b.Tok == token.CONTINUE || b.Tok == token.GOTO {
+						ok, why = false, "the loop body can skip or stop ("+b.Tok.String()+")"
+					}
+				case *ast.ReturnStmt:
+					ok, why = false, "the loop body returns early"
+				}
+				return true
+			})
+			what := "?"
+			switch l := x.(type) {
+			case *ast.RangeStmt:
+				what = src(l.X)
+			case *ast.ForStmt:
+				if l.Cond != nil {
+					what = src(l.Cond)
+				}
+			}
+			c.R.Check(ok, name, "rendering loop over "+what+" renders every element", x.Pos(), "whole payload, no early exit", why+": composite values that differ only in an element that is not rendered get the same text, hence the same set identity and the same string() — while == tells them apart")
+			return true
+		})
+		c.R.Check(n >= 2, name, "element-rendering loops found", fd.Pos(), fmt.Sprintf("%d loops", n), "fewer than two element-rendering loops found in the canonical renderer")
+	}
 }
